@@ -297,6 +297,11 @@ Fixpoint ref_index_of (id : bytes) (l : list (option ref)) (i : Z) : Z :=
   | None :: t => ref_index_of id t (i + 1)
   end.
 
+(* sentValidatorsOf: the conditional request carried exactly the validators of the stored response *)
+Definition sent_validators_of (req_hdr stored_hdr : headers) : bool :=
+  beq (hget (bs "If-None-Match") req_hdr) (hget (bs "ETag") stored_hdr) &&
+  beq (hget (bs "If-Modified-Since") req_hdr) (hget (bs "Last-Modified") stored_hdr).
+
 Definition background_revalidate (q : request) (stored : stored_entry) (url_key : bytes)
            (f : freshness) (cc_req : directives) : prog unit :=
   round_trip_timed q (fun rep start stop =>
@@ -307,6 +312,10 @@ Definition background_revalidate (q : request) (stored : stored_entry) (url_key 
           match own with
           | None => Ret tt
           | Some own_entry =>
+              (* a 304 is used only for the entry whose validators were sent (sentValidatorsOf) *)
+              if match rep with RResp r => p_status r =? 304 | RErr => false end &&
+                 negb (sent_validators_of (q_hdr q) (e_hdr own_entry))
+              then Ret tt else
               get_refs_clean url_key (fun ans =>
                 let refs := match ans with Some l => l | None => [] end in
                 let ctx := {| rc_url_key := url_key; rc_start := start; rc_end := stop; rc_cc_req := cc_req;
